@@ -54,6 +54,22 @@ def render(ins, fmt, order):
     return "\n".join(lines) + "\n"
 
 
+def render_var(ins, order):
+    """the numbering template has a parameter t and the patterns of the instruction refer to it: the same instruction is
+    instantiated with different values of $t, so nothing counted under one value may serve under another"""
+    attrs = 'level="%s" count=%s' % (ins["level"], quoteattr(xpgen.render(ins["count"])))
+    if ins["hasFrom"]:
+        attrs += " from=%s" % quoteattr(xpgen.render(ins["from"]))
+    lines = ['<xsl:stylesheet version="1.0" %s>' % XSLNS,
+             '<xsl:template name="num"><xsl:param name="t"/><n><xsl:number %s/></n></xsl:template>' % attrs,
+             '<xsl:template match="/"><o>']
+    for k, t in order:
+        lines.append('<xsl:for-each select="(/. | //node() | //@*)[%d]"><xsl:call-template name="num"><xsl:with-param name="t" select="\'%s\'"/></xsl:call-template></xsl:for-each>' % (k, t))
+    lines.append('</o></xsl:template>')
+    lines.append('</xsl:stylesheet>')
+    return "\n".join(lines) + "\n"
+
+
 def render_value(vals, fmt):
     """vals: integers, or ("x8", m) = the number m/8 written as a decimal (value= is rounded as by round(): halves go up)"""
     lines = ['<xsl:stylesheet version="1.0" %s>' % XSLNS, '<xsl:template match="/"><o>']
@@ -160,6 +176,24 @@ def run(res, tier, seed):
             open(os.path.join(cdir, "in.xml"), "w").write(c02.doc_xml(docs[d]))
             cases.append({"id": k, "dir": cdir, "trace": "none", "select": False})
             metas.append(("count", d, ins, fmt, order)); k += 1
+    # patterns that refer to a variable: the same instruction under changing values of $t
+    tv = var("t")
+    P = lambda *st, **kw: path(list(st), **kw)
+    vpool = [P(step("child", T_ANY, bin_("or", bin_("=", fn("name"), tv), bin_("=", P(step("attribute", t_name("x"))), tv)))),
+             P(step("child", T_NODE, bin_("or", bin_("=", fn("name"), tv), bin_("=", P(step("self", T_NODE)), tv)))),
+             P(step("child", t_name("b"), bin_("!=", tv, lit("a")))), P(step("child", T_ANY, bin_("=", fn("string-length", tv), num(1))))]
+    for _ in range(40 if quick else 800):
+        d = rng.randrange(len(docs))
+        n = flats[d]["n"]
+        ins = {"level": rng.choice(["single", "multiple", "any"]), "hasCount": True, "count": rng.choice(vpool), "hasFrom": rng.random() < 0.3, "from": rng.choice(vpool[:2])}
+        ids = [i for i in range(1, n + 1) if flats[d]["kind"][i - 1] != "attr"]
+        order = [(rng.choice(ids), rng.choice(["a", "b", "c", "1", "t", "ab"])) for _ in range(min(14, 2 * len(ids)))]
+        order += [(k_, rng.choice(["a", "b"])) for k_, _t in order[:6]]          # the same nodes again under another value
+        cdir = os.path.join(wd, "case%d" % k); os.makedirs(cdir)
+        open(os.path.join(cdir, "main.xsl"), "w").write(render_var(ins, order))
+        open(os.path.join(cdir, "in.xml"), "w").write(c02.doc_xml(docs[d]))
+        cases.append({"id": k, "dir": cdir, "trace": "none", "select": False})
+        metas.append(("countvar", d, ins, "1", order)); k += 1
     # the model-derived family: histories of the CountersImpl state graph on documents that realise its (match, from) sets
     for tree, ins, hist in counters_model(res, wd, quick, rng):
         docs.append(tree)
@@ -224,15 +258,20 @@ def run(res, tier, seed):
             if dn["status"] != 0:
                 res.violation("error-free stylesheet failed: %s" % dn["msg"][:200], [sample]); continue
             outs = outs_of(dn["tree"])
-            if m[0] == "count":
+            if m[0] in ("count", "countvar"):
                 _, d, ins, fmt, order = m
+                tvals = [None] * len(order)
+                if m[0] == "countvar":
+                    tvals = [t for _k, t in order]
+                    order = [k_ for k_, _t in order]
                 if outs is None or len(outs) != len(order):
                     res.violation("result tree does not hold one <n> per visited node", [sample, dn]); continue
                 nruns += 1
                 sins = {"level": ins["level"], "hasCount": ins["hasCount"], "count": xpgen.strip_render_only(ins["count"]),
                         "hasFrom": ins["hasFrom"], "from": xpgen.strip_render_only(ins["from"])}
-                for node, o in zip(order, outs):
-                    events.append({"e": "Number", "doc": d + 1, "node": node, "instr": sins, "fmt": xdm.cps(fmt), "out": xdm.cps(o), "sample": c["id"]})
+                for node, o, tvl in zip(order, outs, tvals):
+                    events.append(dict({"e": "Number", "doc": d + 1, "node": node, "instr": sins, "fmt": xdm.cps(fmt), "out": xdm.cps(o), "sample": c["id"]},
+                                       **({"t": xdm.cps(tvl)} if tvl is not None else {})))
                     if o not in ("", "1"):
                         nontriv.add(vlib.canon_hash([d, node, sample["xsl"].split("\n")[1]]))
             elif m[0] == "group":
